@@ -80,11 +80,12 @@ type kernelSpec struct {
 	lean       string // name of the generated definition (namespace Acme.Gen.K)
 	fields     []kField
 	slices     []kSlice
-	vias       []kVia   // parameters only handed on to callees / components of the argument signal
-	state      *kState  // state-passing translation of a receiver-mutating method (kernels_state.go)
-	idTypes    []string // named Go types used as opaque identities (↦ Nat; only == and != allowed)
-	exactFloat bool     // float64(integer expr) ↦ the exact integer; integral float constants ↦ Int
-	model      string   // the hand-written model function it is proved equal to (documentation)
+	vias       []kVia                 // parameters only handed on to callees / components of the argument signal
+	structs    map[string]kStructSpec // Go structs whose literals are translated (kernels_bits.go)
+	state      *kState                // state-passing translation of a receiver-mutating method (kernels_state.go)
+	idTypes    []string               // named Go types used as opaque identities (↦ Nat; only == and != allowed)
+	exactFloat bool                   // float64(integer expr) ↦ the exact integer; integral float constants ↦ Int
+	model      string                 // the hand-written model function it is proved equal to (documentation)
 }
 
 var kernelSpecs = []kernelSpec{
@@ -186,12 +187,34 @@ var stateKernelSpecs = []kernelSpec{
 		state: layoutState("", false), model: "Acme.Layout.shiftRight"},
 }
 
+// generateFilters: the signals with their byte order, the filters as the records of Acme.Core.Bits
+var filterSignals = kSlice{
+	kField: kField{"sl.signals", "sigs"},
+	elem:   "(Acme.Layout.Slot × Bool)",
+	proj: map[string]string{"EntityID": "(%.1.id)", "GetRelativeStartPos": "(%.1.start)", "GetSize": "(%.1.size)",
+		// MessageByteOrderLittleEndian = 0, MessageByteOrderBigEndian = 1 (the generated code
+		// compares with the constant VALUES of the source)
+		"Endianness": "(if %.2 then (1 : Int) else (0 : Int))"},
+}
+
+var filterStruct = map[string]kStructSpec{"SignalLayoutFilter": {lean: "Acme.Bits.Filter", fields: map[string]string{
+	"signal": "id := (%.1.id), be := %.2", "byteIdx": "byteIdx := %", "mask": "mask := (BitVec.toNat %)",
+	"length": "length := %", "leftOffset": "leftOffset := %"}}}
+
+var bitsKernelSpecs = []kernelSpec{
+	{pkg: "acmelib", file: "signal_layout.go", goName: "SignalLayout.generateFilters", lean: "generateFilters",
+		slices:  []kSlice{filterSignals, {kField: kField{"sl.filters", "outFilters"}, elem: "Acme.Bits.Filter"}},
+		structs: filterStruct,
+		state:   &kState{slice: "sl.filters", outOnly: true}, model: "Acme.Bits.genFilters"},
+}
+
 func init() {
 	kernelSpecs = append(kernelSpecs, stateKernelSpecs...)
 	kernelSpecs = append(kernelSpecs, kernelSpec{pkg: "acmelib", file: "signal_layout.go",
 		goName: "SignalLayout.modifyStartBitsOnGrow", lean: "modifyStartBitsOnGrow",
 		fields: []kField{{"sl.size", "cap"}, {"sig.EntityID()", "id"}}, slices: []kSlice{layoutSignals},
 		idTypes: []string{"EntityID"}, state: layoutState("", false), model: "Acme.Layout.growStarts"})
+	kernelSpecs = append(kernelSpecs, bitsKernelSpecs...)
 }
 
 // `sl.signals` of a SignalLayout: the signals in slice order, each seen as an Acme.Layout.Slot
@@ -204,7 +227,7 @@ var layoutSignals = kSlice{
 
 // modules imported by the generated file: the operator semantics and the element types of the
 // parameterised slices
-var kernelImports = []string{"Acme.Core.GenPrelude", "Acme.Core.Layout"}
+var kernelImports = []string{"Acme.Core.GenPrelude", "Acme.Core.Layout", "Acme.Core.Bits"}
 
 // library functions with a definition in Acme/Core/GenPrelude.lean
 var kBuiltins = map[string]struct {
@@ -366,6 +389,9 @@ type ktr struct {
 	aux              []string // auxiliary definitions (loops and their continuations), in order
 	nloops           int
 
+	inFuel     bool                        // inside a counted integer loop (kernels_bits.go)
+	labels     map[string]func(int) string // label ↦ emitter of the statements from the label on
+	labelBusy  map[string]bool
 	countedIdx string          // loop variable of the enclosing `for i := a; i < len(s); i++`
 	alias      map[string]bool // variables that are the current element of that loop (s[i])
 	stale      map[string]bool // element variables that may alias a mutated element
@@ -374,7 +400,10 @@ type ktr struct {
 	loop       *kLoopCtx
 }
 
-type kLoopCtx struct{ brk, cont string }
+type kLoopCtx struct {
+	brk, cont                string
+	hiddenParams, hiddenArgs string // recursion variables of the loop (for definitions nested in its body)
+}
 
 type kFieldUse struct {
 	f    kField
@@ -630,6 +659,9 @@ func (t *ktr) projection(recv ast.Expr, member string, at ast.Expr) (string, kTy
 		p, ok := sl.proj[member]
 		if !ok {
 			t.fail(at, "member `%s` of an element of `%s` is not in the projection table of %s", member, sl.expr, t.spec.goName)
+		}
+		if strings.Contains(p, "%") { // a template: % = the element
+			return strings.ReplaceAll(p, "%", name), t.typeOf(t.info.Types[at].Type, at), true
 		}
 		return "(" + name + "." + p + ")", t.typeOf(t.info.Types[at].Type, at), true
 	}
@@ -1071,6 +1103,11 @@ func (t *ktr) assigned(id ast.Expr) (string, kType) {
 }
 
 func (t *ktr) stmt(s ast.Stmt) []kStmt {
+	if as, ok := s.(*ast.AssignStmt); ok {
+		if out, ok := t.recordListStmt(as); ok {
+			return out
+		}
+	}
 	if t.spec.state != nil {
 		if out, ok := t.stateStmt(s); ok {
 			return out
@@ -1248,6 +1285,9 @@ func (t *ktr) stmt(s ast.Stmt) []kStmt {
 		}
 		return cur
 	case *ast.BranchStmt:
+		if x.Tok == token.GOTO && x.Label != nil {
+			return []kStmt{kGoto{x.Label.Name}}
+		}
 		if x.Label != nil {
 			t.fail(x, "labelled %s", x.Tok)
 		}
@@ -1265,10 +1305,10 @@ func (t *ktr) stmt(s ast.Stmt) []kStmt {
 		}
 		t.fail(x, "%s statement", x.Tok)
 	case *ast.LabeledStmt:
-		t.fail(x, "label `%s`", x.Label.Name)
+		return append([]kStmt{kLabel{x.Label.Name}}, t.stmt(x.Stmt)...)
 	case *ast.RangeStmt:
 		if t.inLoop > 0 {
-			t.fail(x, "nested loop")
+			t.fail(x, "nested loop (only a counted integer loop may be nested in a range loop)")
 		}
 		if x.Tok != token.DEFINE && (x.Key != nil || x.Value != nil) {
 			t.fail(x, "range loop that assigns existing variables")
@@ -1329,10 +1369,10 @@ func (t *ktr) stmt(s ast.Stmt) []kStmt {
 		}
 		return []kStmt{lp}
 	case *ast.ForStmt:
-		if t.spec.state != nil {
+		if c, ok := unparen(x.Cond).(*ast.BinaryExpr); ok && t.spec.state != nil && exprStr(c.Y) == "len("+t.spec.state.slice+")" {
 			return t.countedLoop(x)
 		}
-		t.fail(s, "for loop with init / condition / post (only `for .. := range <parameterised slice>` is translated)")
+		return t.fuelLoop(x)
 	case *ast.GoStmt, *ast.DeferStmt, *ast.SelectStmt, *ast.SendStmt:
 		t.fail(s, "statement %T", s)
 	}
@@ -1348,7 +1388,7 @@ func terminates(ss []kStmt) bool {
 		return false
 	}
 	switch x := ss[len(ss)-1].(type) {
-	case kRet, kBreak, kContinue:
+	case kRet, kBreak, kContinue, kGoto:
 		return true
 	case kIf:
 		return terminates(x.then) && terminates(x.els)
@@ -1360,10 +1400,24 @@ func terminates(ss []kStmt) bool {
 func hasJump(ss []kStmt) bool {
 	for _, s := range ss {
 		switch x := s.(type) {
-		case kRet, kBreak, kContinue, kLoop, kIndex, kBind, kStruct:
+		case kRet, kBreak, kContinue, kLoop, kIndex, kBind, kStruct, kFor, kGoto, kLabel:
 			return true
 		case kIf:
 			if hasJump(x.then) || hasJump(x.els) {
+				return true
+			}
+		}
+	}
+	return false
+}
+
+func hasRet(ss []kStmt) bool {
+	for _, s := range ss {
+		switch x := s.(type) {
+		case kRet:
+			return true
+		case kIf:
+			if hasRet(x.then) || hasRet(x.els) {
 				return true
 			}
 		}
@@ -1382,6 +1436,10 @@ func hasIndex(ss []kStmt) bool {
 			}
 		case kLoop:
 			if hasIndex(x.body) || x.start != "" {
+				return true
+			}
+		case kFor:
+			if hasIndex(x.body) {
 				return true
 			}
 		}
@@ -1416,6 +1474,12 @@ func outerAssigned(ss []kStmt, declared map[string]bool, seen map[string]bool, o
 				outerAssigned(br, d, seen, out)
 			}
 		case kLoop:
+			d := map[string]bool{}
+			for k := range declared {
+				d[k] = true
+			}
+			outerAssigned(x.body, d, seen, out)
+		case kFor:
 			d := map[string]bool{}
 			for k := range declared {
 				d[k] = true
@@ -1479,6 +1543,27 @@ func (t *ktr) emit(ss []kStmt, ind int, k func(ind int) string) string {
 		return k(ind)
 	}
 	rest := func(ind int) string { return t.emit(ss[1:], ind, k) }
+	for j, s := range ss { // forward labels of this statement list
+		if lb, ok := s.(kLabel); ok && j > 0 {
+			tail := ss[j+1:]
+			if t.labels == nil {
+				t.labels = map[string]func(int) string{}
+			}
+			name := lb.name
+			t.labels[name] = func(ind int) string {
+				if t.labelBusy[name] {
+					panic(kErr{token.NoPos, "goto " + name + " from the statements after the label (a backward jump: a loop)"})
+				}
+				if t.labelBusy == nil {
+					t.labelBusy = map[string]bool{}
+				}
+				t.labelBusy[name] = true
+				r := t.emit(tail, ind, k)
+				t.labelBusy[name] = false
+				return r
+			}
+		}
+	}
 	only := func(what string) {
 		if len(ss) > 1 {
 			panic(kErr{token.NoPos, "statements after a " + what})
@@ -1494,6 +1579,66 @@ func (t *ktr) emit(ss []kStmt, ind int, k func(ind int) string) string {
 	case kBreak:
 		only("break")
 		return pad(ind) + t.loop.brk + "\n"
+	case kGoto:
+		only("goto")
+		f, ok := t.labels[s.label]
+		if !ok {
+			panic(kErr{token.NoPos, "goto " + s.label + ": only a forward jump to a label at the top level of the enclosing statement list is translated"})
+		}
+		return f(ind)
+	case kLabel:
+		return rest(ind)
+	case kFor:
+		t.nloops++
+		loopName := fmt.Sprintf("%s_loop%d", t.spec.lean, t.nloops)
+		params, args := varParams(s.vars)
+		if !hasRet(s.body) {
+			// no return in the body: the loop is a function from the variables to the new values
+			// of the variables the body assigns (so a loop nested in a range loop does not have
+			// to call the outer loop back)
+			var carried []kLet
+			outerAssigned(s.body, map[string]bool{}, map[string]bool{}, &carried)
+			if len(carried) == 0 {
+				panic(kErr{s.pos, "counted loop without effect"})
+			}
+			var ns, ts []string
+			for _, v := range carried {
+				ns = append(ns, v.name)
+				ts = append(ts, v.ty.lean())
+			}
+			pat := ns[0]
+			if len(ns) > 1 {
+				pat = "(" + strings.Join(ns, ", ") + ")"
+			}
+			sigma := strings.Join(ts, " × ")
+			saved := t.loop
+			t.loop = &kLoopCtx{brk: pat, cont: "(" + loopName + args + " (" + s.idx + " + (1 : Int)) fuel_)"}
+			cont := t.loop.cont
+			savedLabels := t.labels
+			t.labels = nil
+			body := t.emit(s.body, 2, func(ind int) string { return pad(ind) + cont + "\n" })
+			t.labels = savedLabels
+			t.loop = saved
+			t.aux = append(t.aux, "def "+loopName+params+" ("+s.idx+" : Int) : Nat → "+sigma+"\n"+
+				"  | 0 => "+pat+"\n  | fuel_ + 1 =>\n"+body+"\n")
+			return pad(ind) + "let " + pat + " : " + sigma + " := (" + loopName + args + " " + s.start + " " + s.fuel + ")\n" + rest(ind)
+		}
+		if t.loop != nil {
+			panic(kErr{s.pos, "return inside a counted loop that is nested in a range loop"})
+		}
+		afterName := fmt.Sprintf("%s_after%d", t.spec.lean, t.nloops)
+		after := t.emit(ss[1:], 1, k)
+		t.aux = append(t.aux, "def "+afterName+params+" : "+t.resLean()+" :=\n"+after+"\n")
+		saved := t.loop
+		t.loop = &kLoopCtx{brk: "(" + afterName + args + ")",
+			cont: "(" + loopName + args + " (" + s.idx + " + (1 : Int)) fuel_)"}
+		cont := t.loop.cont
+		body := t.emit(s.body, 2, func(ind int) string { return pad(ind) + cont + "\n" })
+		brk := t.loop.brk
+		t.loop = saved
+		t.aux = append(t.aux, "def "+loopName+params+" ("+s.idx+" : Int) : Nat → "+t.resLean()+"\n"+
+			"  | 0 => "+brk+"\n  | fuel_ + 1 =>\n"+body+"\n")
+		return pad(ind) + "(" + loopName + args + " " + s.start + " " + s.fuel + ")\n"
 	case kContinue:
 		only("continue")
 		if t.loop.cont == "" {
@@ -1521,7 +1666,7 @@ func (t *ktr) emit(ss []kStmt, ind int, k func(ind int) string) string {
 			return rest(ind)
 		}
 		saved := t.loop
-		t.loop = &kLoopCtx{brk: saved.brk, cont: ""}
+		t.loop = &kLoopCtx{brk: saved.brk, cont: "", hiddenParams: saved.hiddenParams, hiddenArgs: saved.hiddenArgs}
 		r := rest(ind)
 		t.loop = saved
 		return r
@@ -1545,7 +1690,12 @@ func (t *ktr) emit(ss []kStmt, ind int, k func(ind int) string) string {
 			nilBind = "\n" + pad(2) + "let " + s.list + " : " + lt + " := pre_\n" + pad(2)
 			consBind = pad(2) + "let " + s.list + " : " + lt + " := (pre_ ++ " + s.elem + " :: rest_)\n"
 		}
-		t.loop = &kLoopCtx{brk: "(" + afterName + args + ")", cont: "(" + loopName + args + idxNext + preNext + " rest_)"}
+		hidP, hidA := " (rest_ : List "+s.elemTy.elem+")", " rest_"
+		if s.stateful {
+			hidP, hidA = " (pre_ : "+s.listTy.lean()+")"+hidP, " pre_"+hidA
+		}
+		t.loop = &kLoopCtx{brk: "(" + afterName + args + ")", cont: "(" + loopName + args + idxNext + preNext + " rest_)",
+			hiddenParams: hidP, hiddenArgs: hidA}
 		body := t.emit(s.body, 2, func(ind int) string {
 			if t.loop.cont == "" {
 				panic(kErr{s.pos, "the loop body goes on after the state slice was reassigned (the Go loop would continue over the old slice): break or return"})
@@ -1752,6 +1902,11 @@ func translateKernel(spec *kernelSpec, p *packages.Package, funcs map[types.Obje
 			for _, f := range allFields {
 				fu := t.fields[f.expr]
 				if (fu.root != nil && t.info.Uses[fu.root] == obj && obj != nil) || (fu.root == nil && viaRoot[f.expr] == id.Name) {
+					if spec.state != nil && spec.state.outOnly && f.expr == spec.state.slice {
+						placed[f.expr] = true // an output only: not a parameter
+						callable = false
+						continue
+					}
 					if strings.HasPrefix(f.expr, id.Name+".") {
 						out.origins = append(out.origins, kOrigin{goParam: -1, root: pidx, suffix: strings.TrimPrefix(f.expr, id.Name)})
 					} else {
